@@ -38,6 +38,14 @@ func c05Gen(r *rand.Rand, tier string) []spec.Case {
 			}
 		}
 	}
+	// start timeouts so short that they expire while the launch itself (fork/exec) is still in progress
+	for rep := 0; rep < reps; rep++ {
+		for _, us := range []int{1, 20, 100, 300, 1000, 3000} {
+			for _, launch := range []string{"cmd", "cmd", "runner"} {
+				out = append(out, spec.Case{Kind: "tiny-timeout", P: spec.MustJSON(spec.C05Case{Cause: "silence", Launch: launch, TimeoutMs: 600, TimeoutUs: us})})
+			}
+		}
+	}
 	// a custom runner whose stdout reader breaks (a log stream that fails with an error other than EOF)
 	for _, cause := range []string{"silence", "garbage", "field-version"} {
 		out = append(out, spec.Case{Kind: cause, P: spec.MustJSON(spec.C05Case{Cause: cause, Launch: "runner-stdout-err", TimeoutMs: 600})})
@@ -69,6 +77,16 @@ func c05Judge(c spec.Case, evs []spec.Event, d *Death) CaseResult {
 	if o.StartErr == "" {
 		// this cause must be rejected by every reading of C01; a success here is C01's business
 		return CaseResult{Verdict: "inconclusive", Inconcl: fmt.Sprintf("Start unexpectedly succeeded for cause %s (C01 decides that)", p.Cause), Class: res.Class}
+	}
+	if p.TimeoutUs > 0 {
+		res.Class = fmt.Sprintf("tiny-timeout-%dus/%s", p.TimeoutUs, p.Launch)
+	}
+	if p.TimeoutUs > 0 && o.Pid == 0 {
+		// no process of this case was ever seen alive in the 1.5 s after Start returned, and none exists now:
+		// whatever was launched is gone
+		res.Counters["tiny_timeout_nothing_left"]++
+		res.Counters["failed_starts"]++
+		return res
 	}
 	if p.Launch != "scripted" && o.Pid == 0 {
 		return CaseResult{Verdict: "inconclusive", Inconcl: "plugin never wrote its pid file", Class: res.Class}
@@ -105,7 +123,7 @@ func init() {
 		ID: "C05", Level: "fault_enumeration", Race: true, TestName: "TestC05",
 		Gen: c05Gen, Batch: 20, Children: 3, PerCase: 3 * time.Second, Base: 90 * time.Second,
 		Judge:       c05Judge,
-		Rule:        "enumerated failure causes (each handshake field invalid in turn, short/garbage line, bad line followed by more output, silence until timeout, partial line without newline, exit before output, stdout closed while alive, crash at two hook points inside Serve) x launch method (Cmd real process, custom runner around a real process, the same with a Kill that honours its context (aborts when it is done) without and with a 400 ms grace period and the failure placed late in the start window, scripted in-process runner); thorough repeats each 10x with seeded output delay. Observed: /proc state of the launched pid at Start-return and while polling up to 5 s, runner Kill calls, Kill duration, reaping, temp dir listing. Class = cause/launch",
+		Rule:        "enumerated failure causes (each handshake field invalid in turn, short/garbage line, bad line followed by more output, silence until timeout, partial line without newline, exit before output, stdout closed while alive, crash at two hook points inside Serve, start timeouts of 1 ns - 3 ms that expire while the launch itself is in progress) x launch method (Cmd real process, custom runner around a real process, the same with a Kill that honours its context (aborts when it is done) without and with a 400 ms grace period and the failure placed late in the start window, scripted in-process runner); thorough repeats each 10x with seeded output delay. Observed: /proc state of the launched pid at Start-return and while polling up to 5 s, runner Kill calls, Kill duration, reaping, temp dir listing. Class = cause/launch",
 		Assumptions: []string{"'shortly after' = within 5 s", "only causes that every reading of C01 rejects are used", "Kill counts as hung after 18 s (nominal 2-3 s)"},
 	})
 }
